@@ -61,7 +61,7 @@ def behaviour(draw, typ, n_ent, rt=False):
 @st.composite
 def scenarios(draw, max_sims=5, min_sims=1, types=TYPES, allow_mem=True, allow_weak=True,
               allow_groups=True, max_until=8, debug_ok=True, sensitive=False, max_conns=8,
-              lazy=None, cache=None, future_ok=True, allow_sync=True, parallel=True):
+              lazy=None, cache=None, future_ok=True, allow_sync=True, parallel=True, late_initial=True):
     n = draw(st.integers(min_sims, max_sims))
     sids = [f"S{i}" for i in range(n)]
     paths = {}
@@ -153,6 +153,9 @@ def scenarios(draw, max_sims=5, min_sims=1, types=TYPES, allow_mem=True, allow_w
     for s in sids:
         if typ[s] == "event-based" and draw(st.integers(0, 3)) > 0:
             ie[s] = draw(st.sampled_from([0, 0, 0, 1, 2]))
+        elif typ[s] != "event-based" and late_initial and draw(st.integers(0, 7)) == 0:
+            # accepted by the API although only documented for event-based simulators: the first step moves
+            ie[s] = draw(st.sampled_from([0, 1, 2, 3]))
     until = draw(st.integers(1, max_until))
     scn = {
         "tree": tree, "sims": sims, "conns": conns, "initial_events": ie, "until": until,
@@ -291,6 +294,13 @@ def micro_scenarios():
         "sims": [_sim("A", "time-based", steps=[3], const_po=True), _sim("B", "time-based", steps=[1]),
                  _sim("C", "time-based", steps=[2])],
         "conns": [_c("A", "po", "B", "mi")], "until": 7}
+    # set_initial_event on a hybrid simulator (its first step moves from 0 to 2) that is triggered exactly at 0, at
+    # the initial event's time and later
+    out["late_initial_event_hybrid"] = {
+        "tree": ["A", "B"],
+        "sims": [_sim("A", "hybrid", steps=[1], emit=[1]), _sim("B", "hybrid", steps=[0], emit=[0])],
+        "conns": [_c("A", "eo", "B", "ti")],
+        "initial_events": {"B": 2}, "until": 4}
     for s in out.values():
         s.setdefault("initial_events", {})
         s.setdefault("world", {"cache": True})
